@@ -8,11 +8,12 @@ RULE = ("every (N, n, x) with N <= 10 (quick) / 22 (thorough), three alternative
         "starting points G; populations of 10^3 .. 1.2*10^7 (incl. 2^16+1, 2^20-1, 2^20+5) with samples of 5..60, limits checked one step inside / outside with exact tails; non-trivial = 0 < x < n (both limits come from the search); distinct by arguments; "
         "coverage computed exactly over all x for every true G")
 LEVEL = ("theorems hgLower_spec / hgUpper_spec (limits are the least / greatest G reaching the level), "
-         "hg_coverage_lower / hg_coverage_upper (for every true G), hg_trivial_limits; model validated exhaustively "
+         "hg_coverage_lower / hg_coverage_upper (for every true G), hg_trivial_limits, HGOrder.hypergeomCI_ordered / hg_*_nested; model validated exhaustively "
          "against utils.hypergeom_conf_interval")
 ASSUMPTIONS = ["SciPy evaluates the hypergeometric cdf in doubles: cases where an exact tail probability is within 1e-12 of the "
                "level at the returned or the model's limit are excluded from the equality comparison and counted",
-               "lower <= upper is checked on the implementation (exhaustive small domain), not proved"]
+               "lower <= upper for tail levels in (0, 1/2] and nesting in the level are theorems (HGOrder.hypergeomCI_ordered, hg_lower_nested, "
+               "hg_upper_nested, from the coupling inequality hyperCdf_succ_ge) and are also checked on the implementation"]
 CLS = [0.95, 0.9, 0.975, 0.5, 0.99, 0.8, 0.3, 0.05]
 ALTS = ["two-sided", "lower", "upper"]
 
@@ -113,9 +114,15 @@ def run(ctx):
                                 break
     # ---- large populations (ballot-sized N, lengths past powers of two), small samples: the returned limits are checked
     #      against the defining inequalities one step inside and outside (exact big-integer tails)
-    for _ in range(ctx.n(60, 600)):
-        N = ctx.rng.choice([1000, 5000, 2**16 + 1, 2**20 - 1, 2**20 + 5, 1200000, 1500000, 3 * 10**6, 12345678])
-        n = ctx.rng.randint(5, 60); x = ctx.rng.choice([0, 1, n, n - 1, ctx.rng.randint(0, n), ctx.rng.randint(0, n)])
+    for _ in range(ctx.n(110, 900)):
+        if ctx.rng.random() < 0.45:
+            # mid-sized populations with a sizeable sampling fraction and very few good (or bad) items in the sample: the true limits
+            # then sit at the ends x and N-(n-x) of the feasible range
+            N = ctx.rng.choice([280, 300, 400, 513, 700]); n = ctx.rng.randint(N // 10, N // 2)
+            x = ctx.rng.choice([1, 1, 2, n - 1, n - 1, n - 2, 0, n, 3])
+        else:
+            N = ctx.rng.choice([1000, 5000, 2**16 + 1, 2**20 - 1, 2**20 + 5, 1200000, 1500000, 3 * 10**6, 12345678])
+            n = ctx.rng.randint(5, 60); x = ctx.rng.choice([0, 1, n, n - 1, ctx.rng.randint(0, n), ctx.rng.randint(0, n)])
         cl = ctx.rng.choice(CLS); alt = ctx.rng.choice(ALTS); a = level(cl, alt)
         r = guarded(utils.hypergeom_conf_interval, n, x, N, cl, alt, secs=60)
         det = {"call": "hypergeom_conf_interval", "n": n, "x": x, "N": N, "cl": cl, "alternative": alt}
